@@ -7,6 +7,7 @@ theorems do not cover, and the transform visitor / transformer, are still explor
 from __future__ import annotations
 
 import random
+from run import Case
 
 import legacy_machine as M
 
@@ -74,8 +75,64 @@ BUDGET = {"quick": 240, "thorough": 2400}
 
 def cases(rng: random.Random, tier: str):
     n_prim, n_tr = (150, 60) if tier == "quick" else (3000, 1200)
+    yield from dynamic_field_cases(rng, 10 if tier == "quick" else 150)
     yield from M.history_cases(rng, "C18", n_prim, n_tr, (25, 45), 3)
 
 
 def extra_coverage():
     return {"traces_validated_against_impl": M.STATS.get("ops_compared_with_model", 0), "distribution_ops": dict(M.STATS)}
+
+
+def dynamic_field_cases(rng, n):
+    """classes whose child fields the library recognises only by the VALUES they hold (annotations `typing.Sequence[Node]`,
+    `typing.Any`): construction, replace, replace_with, detach / attach and duplicate keep the tree consistent"""
+    import warnings
+    import zoo_c18 as Z
+    from legacy_machine import ORIGINS
+    O = ORIGINS[0]
+    for _ in range(n):
+        fail = None
+        step = "construct"
+        try:
+            with warnings.catch_warnings():
+                warnings.simplefilter("ignore")
+                a, b, c, d = (Z.LLeaf(v=i, origin=O) for i in range(4))
+                inner = Z.LSeq(body=(a, b), v=rng.randint(0, 3), origin=O)
+                root = Z.LAnyKid(x=inner, v=rng.randint(0, 3), origin=O) if rng.random() < 0.5 else Z.LSeq(body=(inner,), v=9, origin=O)
+                fail = Z.dyn_consistent(root)
+                # (replace_with is left out: for a field the static scan does not know the library refuses it with a
+                #  RuntimeError -- neither a successful operation nor a documented rejection)
+                ops = rng.sample(["replace-body", "detach-attach", "duplicate", "replace-v"], 3)
+                for step in ops:
+                    if fail:
+                        break
+                    if step == "replace-body":
+                        new_inner = inner.replace(body=(c, d) if rng.random() < 0.5 else (c,))
+                        old_kids = list(inner.body)
+                        inner = new_inner
+                        if any(k.parent is not None for k in old_kids if k not in inner.body):
+                            fail = "a child that is no longer stored anywhere still reports a parent"
+                    elif step == "replace-v":
+                        inner = inner.replace(v=inner.v + 1)
+                    elif step == "rwith-child" and inner.body:
+                        tgt = inner.body[0]
+                        nw = Z.LLeaf(v=50 + rng.randint(0, 9), origin=O, create_detached=True)
+                        tgt.replace_with(nw)
+                    elif step == "rwith-none" and len(inner.body) > 1:
+                        inner.body[0].replace_with(None)
+                    elif step == "detach-attach":
+                        root.detach()
+                        root.attach()
+                    elif step == "duplicate":
+                        dup = root.duplicate()
+                        fail = Z.dyn_consistent(dup)
+                        dup.detach()
+                    root = inner.parent if inner.parent is not None else root
+                    while root.parent is not None:
+                        root = root.parent
+                    fail = fail or Z.dyn_consistent(root)
+                root.detach()
+        except Exception as e:  # noqa
+            fail = fail or f"{step}: raised {type(e).__name__}: {e}"[:200]
+        yield Case("directed:dynamic-child-fields", None, None, True, "LAnyKid / LSeq(body: typing.Sequence[LNode]) tree through " + step,
+                   oracle_fail=(f"after {step}: {fail}" if fail else None), sig="inv|directed|dynamic-child-fields")
